@@ -585,7 +585,16 @@ func NearestIdxForSpan(n int, l, u float64, v float64) int {
 
 	// Can't guarantee anything about exactly halfway between
 	// because of floating point weirdness.
-	return int((float64(n)-1)/(u-l)*(v-l) + 0.5)
+	//
+	// The relative position of v is formed first: l < v < u here, so
+	// it lies in (0, 1), while (n-1)/(u-l) overflows for spans of
+	// subnormal width. Halving keeps u-l finite for spans wider than
+	// math.MaxFloat64.
+	r := (v - l) / (u - l)
+	if math.IsInf(u-l, 0) {
+		r = (0.5*v - 0.5*l) / (0.5*u - 0.5*l)
+	}
+	return int((float64(n)-1)*r + 0.5)
 }
 
 // Norm returns the L norm of the slice S, defined as
